@@ -63,7 +63,8 @@ TSpec == TInit /\ [][TNext]_tvars
 \* one line per finished replay; the driver compares it with what the code returned
 TReport == Done => PrintT("REPLAYED|" \o ToString(Cases[ci].id) \o "|" \o st.outcome.kind \o "|"
                           \o (IF st.outcome.kind = "sat" THEN JoinI(SetToSeq(st.outcome.sol)) ELSE "")
-                          \o "|" \o ToString(st.nlearnt) \o "|" \o ToString(st.nrestart) \o "|" \o ToString(dk - 1))
+                          \o "|" \o ToString(st.nlearnt) \o "|" \o ToString(st.nrestart) \o "|" \o ToString(dk - 1)
+                          \o "|" \o (IF st.outcome.kind = "unsat" THEN JoinI(SetToSeq(st.outcome.ids)) ELSE ""))
 
 \* the model's own properties, evaluated along the real executions
 TOnReplay == st.outcome.kind # "diverged"
